@@ -480,7 +480,7 @@ func parseFragment(parser *Parser) (interface{}, error) {
 		}), nil
 	}
 	var typeCondition *ast.Named
-	if parser.Token.Value == "on" {
+	if peek(parser, lexer.NAME) && parser.Token.Value == "on" {
 		if err := advance(parser); err != nil {
 			return nil, err
 		}
@@ -1022,7 +1022,7 @@ func parseObjectTypeDefinition(parser *Parser) (ast.Node, error) {
  */
 func parseImplementsInterfaces(parser *Parser) ([]*ast.Named, error) {
 	types := []*ast.Named{}
-	if parser.Token.Value == "implements" {
+	if peek(parser, lexer.NAME) && parser.Token.Value == "implements" {
 		if err := advance(parser); err != nil {
 			return nil, err
 		}
